@@ -413,6 +413,264 @@ def judge_graph(g, c, m):
     return problems, first
 
 
+# ----------------------------------------------------------------------------- histories (edits interleaved with questions)
+
+def ev_text(e):
+    k = e[0]
+    if k == "e":
+        return "%d-%d" % (e[1], e[2])
+    if k == "d":
+        return "%d/%d" % (e[1], e[2])
+    if k == "r":
+        return "r%d" % e[1]
+    if k == "x":
+        return "x%d" % e[1]
+    return "?%d:%d" % (e[1], e[2])
+
+
+def hist_line(h):
+    return "H %d %s %s" % (h["n"], h["layout"], ",".join(ev_text(e) for e in h["events"]) or "-")
+
+
+def parse_hist(line):
+    f = line.split(" ")
+    evs = []
+    if f[3] != "-":
+        for t in f[3].split(","):
+            if t[0] == "?":
+                a, b = t[1:].split(":")
+                evs.append(("?", int(a), int(b)))
+            elif t[0] in "xr":
+                evs.append((t[0], int(t[1:]), int(t[1:])))
+            elif "/" in t:
+                a, b = t.split("/")
+                evs.append(("d", int(a), int(b)))
+            else:
+                a, b = t.split("-")
+                evs.append(("e", int(a), int(b)))
+    return {"n": int(f[1]), "layout": f[2], "events": evs, "shape": "?"}
+
+
+class Spec:
+    """the connection graph by its definition, edit by edit (mirrors EquivSpec.spec_edge)"""
+
+    def __init__(self, n):
+        self.n = n
+        self.dead = set()
+        self.edges = set()
+        self._comp = None
+
+    def edit(self, e):
+        k, a, b = e
+        self._comp = None
+        if k == "e":
+            if a != b and a not in self.dead and b not in self.dead:
+                self.edges.add(frozenset((a, b)))
+        elif k == "d":
+            self.edges.discard(frozenset((a, b)))
+        elif k in "rx":
+            self.edges = {x for x in self.edges if a not in x}
+            if k == "x":
+                self.dead.add(a)
+
+    def comp(self):
+        if self._comp is None:
+            self._comp = components(self.n, self.edges)
+        return self._comp
+
+    def expected(self, a, b):
+        c = self.comp()
+        same = c[a] == c[b]
+        return ("1" if (a != b and same) else "0") + ("1" if frozenset((a, b)) in self.edges else "0") + \
+               ("1" if (a == b or same) else "0") * 2 + ("1" if same else "0")
+
+
+def gen_history(rng, maxn):
+    shape = rng.choice(SHAPES)
+    n = rng.randint(2, min(5, maxn)) if rng.random() < 0.15 else rng.randint(3, maxn)
+    vs = list(range(n))
+    rng.shuffle(vs)
+    if shape == "mixed":
+        base, i = [], 0
+        while i < n:
+            k = rng.randint(1, max(1, n - i))
+            base += shape_edges(rng, rng.choice(SHAPES[:5] + ["random", "isolated"]), vs[i:i + k])
+            i += k
+    else:
+        base = shape_edges(rng, shape, vs[:n if rng.random() < 0.6 else rng.randint(1, n)])
+    rng.shuffle(base)
+    spec = Spec(n)
+    events = []
+    asked = []
+    removed = []
+    kinds = {}
+
+    def do(e):
+        events.append(e)
+        spec.edit(e)
+
+    def ask_round(touched):
+        live = [v for v in range(n) if v not in spec.dead]
+        if len(live) <= 5:
+            qs = [(a, b) for a in live for b in live]
+        else:
+            qs = []
+            old = [q for q in asked if q[0] not in spec.dead and q[1] not in spec.dead]
+            k = min(3 * len(live), 60)
+            qs += rng.sample(old, min(len(old), k // 2))                       # earlier pairs, asked again
+            far = [v for v in live if v not in touched]
+            for t in touched:                                                  # around the edit
+                if t in live:
+                    qs += [(t, rng.choice(live)), (rng.choice(live), t)]
+            for _ in range(k - len(qs)):                                       # anywhere (mostly remote from the edit)
+                pool = far if (far and rng.random() < 0.7) else live
+                qs.append((rng.choice(pool), rng.choice(live)))
+        rng.shuffle(qs)
+        for q in qs:
+            events.append(("?", q[0], q[1]))
+            if q not in asked:
+                asked.append(q)
+
+    for a, b in base:
+        do(("e", a, b) if rng.random() < 0.5 else ("e", b, a))
+    ask_round(())
+    for _ in range(rng.randint(3, 10)):
+        live = [v for v in range(n) if v not in spec.dead]
+        touched = []
+        for _ in range(1 if rng.random() < 0.75 else rng.randint(2, 3)):
+            r = rng.random()
+            el = sorted(tuple(sorted(e)) for e in spec.edges)
+            if r < 0.35 and el:
+                a, b = rng.choice(el)
+                if rng.random() < 0.5:
+                    a, b = b, a
+                do(("d", a, b))
+                removed.append((a, b))
+                kind = "remove"
+            elif r < 0.50 and removed:
+                a, b = rng.choice(removed)                                     # put a removed equivalence back
+                do(("e", b, a) if rng.random() < 0.5 else ("e", a, b))
+                kind = "re-add"
+            elif r < 0.65 and len(live) >= 2:
+                a, b = rng.sample(live, 2)
+                do(("e", a, b))
+                kind = "add"
+            elif r < 0.78 and live:
+                a = rng.choice(live)
+                b = a
+                do(("r", a, a))
+                kind = "removeAll"
+            elif r < 0.88 and len(live) > 2:
+                a = rng.choice(live)
+                b = a
+                do(("x", a, a))
+                kind = "destroy"
+            elif r < 0.94 and len(live) >= 2:
+                a, b = rng.sample(live, 2)
+                do(("d", a, b))                                                # mostly a non-existing equivalence
+                kind = "remove(any)"
+            elif live:
+                a = rng.choice(live)
+                b = rng.choice(live + sorted(spec.dead)) if rng.random() < 0.5 else a
+                do(("e", a, b) if rng.random() < 0.7 else ("d", a, b))         # self / destroyed partner (nullptr)
+                kind = "odd"
+            else:
+                continue
+            kinds[kind] = kinds.get(kind, 0) + 1
+            touched += [a, b]
+        ask_round(tuple(touched))
+    nedges = len(base) + 10
+    if rng.random() < 0.5 and nedges <= 150:
+        layout = "V:" + ",".join(str(v) for v in range(n))
+    else:
+        nc = rng.randint(1, n)
+        layout = ("J:" if (n <= 12 and nedges <= 25) else "I:") + ",".join(str(rng.randrange(nc)) for _ in range(n))
+    return {"n": n, "shape": shape, "layout": layout, "events": events, "edit_kinds": kinds}
+
+
+def judge_history(h, c, m):
+    """returns (problems, index (in events) of the first failing question or None)"""
+    if c.startswith(BAD_TOKENS):
+        return ["implementation: %s" % c], None
+    if m.startswith(BAD_TOKENS) or not m:
+        return ["model driver: %s" % m], None
+    cf, mf = fields(c), fields(m)
+    ans = cf["answers"].split(",") if cf["answers"] else []
+    mans = mf["answers"].split(",") if mf["answers"] else []
+    spec = Spec(h["n"])
+    problems = []
+    first = None
+    qi = 0
+    names = ("hasEquivalentVariable(v,true)", "hasEquivalentVariable(v,false)", "areEquivalentVariables [utilities]",
+             "AnalyserModel::areEquivalentVariables", "driver BFS over equivalentVariable(i)")
+    last_edit = None
+    for ei, e in enumerate(h["events"]):
+        if e[0] != "?":
+            spec.edit(e)
+            last_edit = ev_text(e)
+            continue
+        if qi >= len(ans):
+            break
+        a, b = e[1], e[2]
+        exp = spec.expected(a, b)
+        bad = []
+        for j in range(5):
+            if ans[qi][j:j + 1] != exp[j]:
+                bad.append("ORACLE %s(v%d,v%d)=%s after edit [%s], the current connection graph says %s" % (
+                    names[j], a, b, ans[qi][j:j + 1], last_edit, exp[j]))
+        if qi < len(mans) and mans[qi] != ans[qi][:4]:
+            bad.append("question %d (v%d,v%d): impl=%s model=%s" % (qi, a, b, ans[qi][:4], mans[qi]))
+        if bad:
+            if first is None:
+                first = ei
+            if len(problems) < 6:
+                problems += bad
+        qi += 1
+    nq = sum(1 for e in h["events"] if e[0] == "?")
+    if len(ans) != nq:
+        problems.append("%d answers for %d questions" % (len(ans), nq))
+    if len(mans) != len(ans):
+        problems.append("model gave %d answers, implementation %d" % (len(mans), len(ans)))
+    # final lists
+    adj = {}
+    for item in cf.get("adj", "").split(";"):
+        if item:
+            k, l = item.split(":")
+            adj[int(k)] = [int(x) for x in l.split(".")] if l else []
+    obs = {frozenset((k, w)) for k, l in adj.items() for w in l}
+    if obs != spec.edges:
+        problems.append("final equivalentVariable lists %s differ from the equivalences in force %s" % (
+            sorted(sorted(e) for e in obs), sorted(sorted(e) for e in spec.edges)))
+    if sorted(adj) != [v for v in range(h["n"]) if v not in spec.dead]:
+        problems.append("live variables observed %s" % sorted(adj))
+    if mf.get("adj", "") != cf.get("adj", ""):
+        problems.append("final adjacency: impl=%s model=%s" % (cf.get("adj"), mf.get("adj")))
+    return problems, first
+
+
+def shrink_history(drv, mdl, workdir, h, first, budget=150):
+    def fails(x):
+        c, m = run_one(drv, mdl, workdir, hist_line(x), "shrink")
+        return bool(judge_history(x, c, m)[0])
+    cur = dict(h)
+    if first is not None and first + 1 < len(cur["events"]):
+        x = dict(cur, events=cur["events"][:first + 1])
+        budget -= 1
+        if fails(x):
+            cur = x
+    # questions first (keep the last one), then edits
+    for want_q in (True, False):
+        i = len(cur["events"]) - 2
+        while i >= 0 and budget > 0:
+            if (cur["events"][i][0] == "?") == want_q:
+                x = dict(cur, events=cur["events"][:i] + cur["events"][i + 1:])
+                budget -= 1
+                if fails(x):
+                    cur = x
+            i -= 1
+    return cur
+
+
 def run_one(drv, mdl, workdir, line, tag="one"):
     p = os.path.join(workdir, "%s.cases" % tag)
     with open(p, "w") as f:
@@ -557,19 +815,92 @@ def run(ctx):
                        "first_failing_query": (small["qs"][sfirst] if sfirst is not None and sfirst < len(small["qs"]) else None),
                        "original_case": line, "failing_cases_in_this_run": len(failing)})
     ctx.cov["evaluations"] += nq
+
+    # ------------------------------------------------------------------ (c) histories: edits interleaved with questions
+    nhist, hmaxn = (150, 12) if quick else (3000, 40)
+    hlines = [l.strip() for l in open(corpus) if l.startswith("H ")] if os.path.exists(corpus) else []
+    nhcorpus = len(hlines)
+    hists = [parse_hist(l) for l in hlines]
+    for _ in range(nhist):
+        h = gen_history(ctx.rng, hmaxn)
+        hists.append(h)
+        hlines.append(hist_line(h))
+    nsh = min(vf.NCPU, max(1, len(hlines) // 4))
+    files = []
+    for k in range(nsh):
+        p = os.path.join(ctx.workdir, "hist.%d.cases" % k)
+        with open(p, "w") as f:
+            for l in hlines[k::nsh]:
+                f.write(l + "\n")
+        files.append(p)
+    couts = run_sharded(drv, files, 3000, "impl")
+    mouts = run_sharded(mdl, files, 3000, "model")
+    hhist = {"shape": {}, "layout": {"V": 0, "I": 0, "J": 0}, "edit_kinds": {}, "edits": 0, "questions": 0,
+             "questions_asked_again_after_an_edit": 0, "answers_that_changed_when_asked_again": 0}
+    hfailing = []
+    hnontrivial = set()
+    for k in range(nsh):
+        for j, hi in enumerate(range(k, len(hlines), nsh)):
+            h, line = hists[hi], hlines[hi]
+            c = couts[k][j].strip() if j < len(couts[k]) else "<missing>"
+            m = mouts[k][j].strip() if j < len(mouts[k]) else "<missing>"
+            problems, first = judge_history(h, c, m)
+            hhist["shape"][h["shape"]] = hhist["shape"].get(h["shape"], 0) + 1
+            hhist["layout"][h["layout"][0]] += 1
+            for kk, v in h.get("edit_kinds", {}).items():
+                hhist["edit_kinds"][kk] = hhist["edit_kinds"].get(kk, 0) + v
+            ans = fields(c)["answers"].split(",") if not c.startswith(BAD_TOKENS) else []
+            seen, qi, edits_since = {}, 0, 0
+            for e in h["events"]:
+                if e[0] != "?":
+                    hhist["edits"] += 1
+                    edits_since += 1
+                    continue
+                hhist["questions"] += 1
+                q = (e[1], e[2])
+                if q in seen and seen[q][1] != edits_since:
+                    hhist["questions_asked_again_after_an_edit"] += 1
+                    if qi < len(ans) and ans[qi] != seen[q][0]:
+                        hhist["answers_that_changed_when_asked_again"] += 1
+                seen[q] = (ans[qi] if qi < len(ans) else None, edits_since)
+                qi += 1
+            if any(e[0] in "drx" for e in h["events"]) and qi >= 2:
+                hnontrivial.add(hashlib.sha1(line.encode()).hexdigest())
+            if problems:
+                hfailing.append((hi, c, m, problems, first))
+    hfailing.sort(key=lambda t: (t[1].startswith(BAD_TOKENS), len(hlines[t[0]])))
+    for hi, c, m, problems, first in hfailing[:3]:
+        nbad += 1
+        h, line = hists[hi], hlines[hi]
+        small = shrink_history(drv, mdl, ctx.workdir, h, first, budget=(6 if c.startswith("TIMEOUT") else 150))
+        sl = hist_line(small)
+        sc, sm = run_one(drv, mdl, ctx.workdir, sl, "min")
+        sp, sfirst = judge_history(small, sc, sm)
+        if not sp:
+            sl, sc, sm, sp = line, c, m, problems
+        ctx.violation("C18 history (%s, n=%d): %s" % (h["shape"], h["n"], "; ".join(sp[:3])), "history_%d.json" % nbad,
+                      {"mode": "history", "case": sl, "impl": sc, "model": sm, "problems": sp, "original_case": line,
+                       "failing_cases_in_this_run": len(hfailing)})
+    ctx.cov["evaluations"] += 4 * hhist["questions"]
+    ctx.log("histories: %d (+%d corpus), %s" % (nhist, nhcorpus, hhist))
     ctx.log("graphs: %d (+%d corpus), %d query evaluations, %s" % (ngraphs, ncorpus, nq, {k: v for k, v in hist.items() if k != "n"}))
-    ctx.cov["distinct_nontrivial"] = len(nontrivial) + (keyinfo or {}).get("distinct_unordered_pairs", 0)
+    ctx.cov["distinct_nontrivial"] = len(nontrivial) + len(hnontrivial) + (keyinfo or {}).get("distinct_unordered_pairs", 0)
     ctx.cov["rule"] = ("graphs: a case is one construction history (Variable::addEquivalence calls incl. repeated / reversed / self "
                        "equivalences, destruction of variables) over <= %d variables in shapes %s, with EVERY ordered pair of surviving "
                        "variables (also v,v) queried through the three functions in a shuffled order with ~1/3 repetitions; non-trivial = "
                        "at least one equivalence survives and at least two queries; distinct by the text of the case (measured: %d). "
+                       "histories: a case is a sequence of edits (addEquivalence, removeEquivalence, removeAllEquivalences, destruction of a "
+                       "variable, re-adding a removed equivalence, no-op/odd calls) interleaved with questions; after EVERY edit earlier pairs are "
+                       "asked again (plus pairs around the edit and pairs remote from it) through hasEquivalentVariable(v,true/false), the "
+                       "utility areEquivalentVariables and AnalyserModel::areEquivalentVariables on an AnalyserModel taken after the edit; "
+                       "non-trivial = at least one removing edit and two questions; distinct by text (measured: %d). "
                        "key probe: pairs of addresses fed to the library's key function through the guarded hook; non-trivial = the two "
                        "addresses differ; distinct by unordered pair (measured: %d), among them %d groups that collide under the old "
-                       "64-bit Cantor formula" % (maxn, "/".join(SHAPES), len(nontrivial), (keyinfo or {}).get("distinct_unordered_pairs", 0),
+                       "64-bit Cantor formula" % (maxn, "/".join(SHAPES), len(nontrivial), len(hnontrivial), (keyinfo or {}).get("distinct_unordered_pairs", 0),
                                                   (keyinfo or {}).get("old_key_collision_groups", 0)))
-    ctx.cov["samples"] = [lines[ncorpus][:300], lines[-1][:300], "K %x %x" % pairs[0], "K %x %x" % pairs[5], "K %x %x" % pairs[-1]]
-    ctx.cov["input_distribution"] = {"graphs": hist, "key_probe": keyinfo}
-    ctx.cov["traces_validated_against_impl"] = len(lines) + len(pairs)
+    ctx.cov["samples"] = [lines[ncorpus][:300], lines[-1][:300], hlines[nhcorpus][:400], hlines[-1][:400], "K %x %x" % pairs[0], "K %x %x" % pairs[5], "K %x %x" % pairs[-1]]
+    ctx.cov["input_distribution"] = {"graphs": hist, "histories": hhist, "key_probe": keyinfo}
+    ctx.cov["traces_validated_against_impl"] = len(lines) + len(hlines) + len(pairs)
 
 
 def replay(ctx, path):
@@ -585,6 +916,9 @@ def replay(ctx, path):
         print("model:", m)
         if line.startswith("G "):
             pr, first = judge_graph(parse_case(line), c, m)
+            print("judge:", pr or "property holds on this case")
+        if line.startswith("H "):
+            pr, first = judge_history(parse_hist(line), c, m)
             print("judge:", pr or "property holds on this case")
     if r.get("mode") == "key" and len(cases) == 2:
         print("(two different pairs of addresses; the property needs their keys to differ)")
